@@ -29,8 +29,9 @@ type c16Case struct {
 	Challenge string `json:"challenge"`
 	Password  int    `json:"password_index"`
 	Aux       int    `json:"aux_config"`
-	Callback  int    `json:"callback"`             // 0 registered, 1 nil, 2 error for the main address
-	Order     int    `json:"line_order,omitempty"` // 0: SID, ;PQ, prompt; 1: ;PQ, SID, prompt; 2: SID, ;PQ, SID, prompt; 3: SID, comment, ;PQ, comment, prompt
+	Callback  int    `json:"callback"`                  // 0 registered, 1 nil, 2 error for the main address
+	Prior     string `json:"prior_challenge,omitempty"` // an earlier attempt on the same Session got this challenge, then the link dropped
+	Order     int    `json:"line_order,omitempty"`      // 0: SID, ;PQ, prompt; 1: ;PQ, SID, prompt; 2: SID, ;PQ, SID, prompt; 3: SID, comment, ;PQ, comment, prompt
 }
 
 var c16Passwords = []string{"FOOBAR", "p~w", "Z", "0123456789abcdefghijABCDEFGHIJ!#$%&()*+", "pÆssørd", "my pass word",
@@ -97,6 +98,9 @@ func c16Judge(c c16Case) (string, string, [16]byte) {
 				}
 				return "", errors.New("unexpected address " + addr.String())
 			})
+		}
+		if c.Prior != "" { // the first attempt: handshake with another challenge, then the link is gone
+			s.Exchange(&link.Script{In: []byte(sid + ";PQ: " + c.Prior + "\r" + "CMS via test >\r")})
 		}
 	}}
 	res := sess.RunScript(st, "CMS", script)
@@ -248,6 +252,9 @@ func C16(args []string) {
 		if i%50 == 0 || i >= nDec {
 			for a := 1; a < len(c16AuxCfgs); a++ {
 				judge(c16Case{Challenge: challenges[i], Password: i % len(c16Passwords), Aux: a})
+			}
+			for _, a := range []int{0, 4, 5} { // a second attempt on the same Session is answered for its own challenge
+				judge(c16Case{Challenge: challenges[i], Password: i % len(c16Passwords), Aux: a, Prior: "91700346"})
 			}
 			for cb := 1; cb <= 2; cb++ {
 				for _, a := range []int{0, 1, 5} {
